@@ -695,6 +695,26 @@ func ruleR073(c *Ctx) {
 							}
 						}
 					}
+					// a method expression: String.Contains, (*List).Map - the receiver is the first parameter, the stack the second
+					if sel, ok := ast.Unparen(t.Args[1]).(*ast.SelectorExpr); ok && body == nil {
+						if ms, ok := info.Selections[sel]; ok && ms.Kind() == types.MethodExpr {
+							if fn, ok := ms.Obj().(*types.Func); ok && fn.Pkg() != nil {
+								if p := c.Pkgs[fn.Pkg().Path()]; p != nil {
+									if fd := findFuncDecl(p, fn); fd != nil && fd.Body != nil {
+										var params []types.Object
+										for _, fl := range fd.Type.Params.List {
+											for _, nm := range fl.Names {
+												params = append(params, p.TypesInfo.Defs[nm])
+											}
+										}
+										if len(params) == 1 {
+											body, bpkg, st = fd.Body, p, params[0]
+										}
+									}
+								}
+							}
+						}
+					}
 					if body == nil || st == nil {
 						c.Undecided(key, t.Pos(), "implementation of the method not understood")
 						return true
